@@ -83,7 +83,12 @@ pub fn regex_tokinizer(tokinizer: &mut Tokinizer) {
 }
 
 pub fn language_tokinizer(tokinizer: &mut Tokinizer) {
-    let lowercase_data = tokinizer.data.to_lowercase();
+    /* A comment must be claimed before a language based parser can look into it */
+    if let Some(items) = tokinizer.config.token_parse_regex.get("comment") {
+        comment_regex_parser(tokinizer.config, tokinizer, items);
+    }
+
+    let lowercase_data = crate::tools::lowercase_keep_offsets(&tokinizer.data);
     for func in LANGUAGE_BASED_TOKEN_PARSER.iter() {
         func(tokinizer.config, tokinizer, &lowercase_data);
     }
